@@ -170,7 +170,11 @@ func (r *rsetIterator) Next() bool {
 		return false
 	}
 	// fill read set
-	r.mc.Get(r.bucket, r.XMIterator.Key())
+	// 存储读失败时这个key进不了读集合, 扫描必须报错而不是继续返回它
+	if _, err := r.mc.Get(r.bucket, r.XMIterator.Key()); err != nil && err != ErrNotFound && err != ErrHasDel {
+		r.err = err
+		return false
+	}
 	return true
 }
 
